@@ -145,3 +145,15 @@ impl Out {
         self.n += 1;
     }
 }
+
+/// Which repairs (`fix:` commits) the repository under test contains. `current` makes the Lean driver
+/// use the model's own `….current` constant, the value the property theorems are stated for.
+/// `VERIF_FX=<letters>` overrides (used when the machinery is pointed at a tree without the repairs).
+/// Letters: see DESIGN.md section 6.
+pub fn fx(family: &str) -> String {
+    if let Ok(v) = std::env::var("VERIF_FX") { return v; }
+    match family {
+        "tpl" | "style" => "current",
+        _ => "",
+    }.to_string()
+}
